@@ -218,7 +218,11 @@ Proof.
           destruct r as [[o|] rd3]; [apply IH4|].
           destruct rd3; [apply rel_raise|apply IH4]. }
         destruct (bl =? 1)%Z; [|apply rel_fuel].
-        apply rel_bind; [apply rel_dblocks_render|]. intros [[o|] rd3]; [apply IH4|apply rel_ret].
+        apply rel_bind; [rel_ids Ht|]. intros saved.
+        apply rel_bind; [apply rel_modify; intros sx tx Hx; apply Rel_set_listids; exact Hx|]. intros _.
+        apply rel_bind; [apply rel_dblocks_render|]. intros r.
+        apply rel_bind; [apply rel_modify; intros sx tx Hx; apply Rel_set_listids; exact Hx|]. intros _.
+        destruct r as [[o|] rd3]; [apply IH4|apply rel_ret].
 Qed.
 
 (* lists.render resets the stack first, so it needs no agreement on it *)
